@@ -481,3 +481,104 @@ class BoundProgram(Contract):
                       unused=1)
         h.oblige("bound.only-expected-arguments-passed", z3.BoolVal(bool(
             np.array_equal(got2, got))))
+
+
+# {{{ typed scalar literals, executed (bounded stand-in: real NumPy dtypes)
+
+def typed_scalar_table(tier, seed):
+    """The emitted program is *executed* with the installed NumPy on small
+    arrays for every combination of array dtype x typed NumPy scalar x
+    operation; its result must have the dtype the expression declares and the
+    values of the reference evaluation.  (The deductive part works in exact
+    arithmetic and cannot see precision or promotion.)  Python scalars are
+    left out: pytato types them strongly, a listed C03 finding."""
+    import operator
+
+    from pytato.target.python import (BoundPythonProgram,
+                                      NumpyLikePythonTarget)
+    from pytato.target.python.numpy_like import generate_numpy_like
+    from pyvc.replaylib import eval_array
+
+    class T(NumpyLikePythonTarget):
+        numpy_like_module_name = "numpy"
+        numpy_like_module_name_shorthand = "np"
+
+        def bind_program(self, program, entrypoint, expected_arguments,
+                         bound_arguments):
+            return BoundPythonProgram(
+                target=self, program=program, entrypoint=entrypoint,
+                expected_arguments=expected_arguments,
+                bound_arguments=bound_arguments)
+    ops = {"mul": operator.mul, "add": operator.add,
+           "sub": operator.sub, "rsub": lambda a, s: s - a,
+           "rmul": lambda a, s: s * a, "radd": lambda a, s: s + a,
+           "greater": lambda a, s: pt.greater(a, s),
+           "where": lambda a, s: pt.where(pt.greater(a, s), a, s),
+           "maximum": lambda a, s: pt.maximum(a, s)}
+    scalars = [np.float64(0.1), np.float32(0.5), np.int64(3), np.int32(2),
+               np.complex128(1 + 2j), np.bool_(True)]
+    dtypes = [np.float32, np.float64, np.int32, np.int64]
+    failures, n = [], 0
+    rng = np.random.default_rng(5)
+    for dt in dtypes:
+        x = (rng.integers(-3, 4, (5,)) * (0.3 if np.dtype(dt).kind == "f"
+                                          else 1)).astype(dt)
+        for sc in scalars:
+            for opn, op in ops.items():
+                if isinstance(sc, np.complexfloating) and opn in (
+                        "greater", "where", "maximum"):
+                    continue
+                a = pt.make_placeholder("a", (5,), dt)
+                try:
+                    e = op(a, sc)
+                    if not isinstance(e, pt.Array):
+                        continue       # (NumPy took the operation over)
+                    bp = generate_numpy_like(e, T(), "f", False, (), ())
+                except Exception:  # noqa: BLE001
+                    continue           # rejected / unsupported: not this check
+                n += 1
+                key = f"{np.dtype(dt).name}|{opn}|{type(sc).__name__}"
+                try:
+                    with np.errstate(all="ignore"):
+                        got = np.asarray(bp(a=x))
+                        want = eval_array(e, {"a": x})
+                except Exception as ex:  # noqa: BLE001
+                    failures.append(dict(key=key, what=f"emitted program "
+                                         f"raised {type(ex).__name__}: {ex}"))
+                    continue
+                if got.dtype != e.dtype:
+                    failures.append(dict(
+                        key=key, what=f"{opn}({np.dtype(dt).name} array, "
+                        f"{type(sc).__name__}({sc})): the emitted program "
+                        f"computes {got.dtype}, the expression declares "
+                        f"{e.dtype}", replay_src=TYPED_REPLAY.format(
+                            dt=np.dtype(dt).name, sc=repr(sc), opn=opn)))
+                elif not np.allclose(got, want.astype(got.dtype),
+                                     rtol=1e-6 if got.dtype.itemsize >= 8
+                                     else 1e-3, equal_nan=True):
+                    failures.append(dict(
+                        key=key, what=f"{opn}({np.dtype(dt).name} array, "
+                        f"{type(sc).__name__}({sc})): values differ from the "
+                        "reference evaluation"))
+    return dict(name="typed-scalar-table", kind="bounded", evaluations=n,
+                failures=failures,
+                note="emitted programs executed with the installed NumPy: "
+                     "array dtype x typed NumPy scalar x operation")
+
+
+TYPED_REPLAY = '''
+import sys
+sys.path.insert(0, "/verif"); sys.path.append("/verif/.deps")
+import numpy as np
+from numpy import float64, float32, int64, int32, complex128, bool_
+from pyvc.replaylib import reproduced, not_reproduced
+from contracts.c14_numpy import typed_scalar_table
+r = typed_scalar_table("quick", 1)
+want = "{dt}|{opn}|"
+for f in r["failures"]:
+    if f["key"].startswith(want):
+        reproduced(f["what"])
+not_reproduced("emitted program has the declared dtype")
+'''
+
+# }}}
